@@ -181,6 +181,21 @@ func (s *Sched) Release(a *Actor) {
 	synctest.Wait()
 }
 
+// Unpark lets a parked actor continue without waiting for quiescence. It is for the
+// moment the system under test is about to hold a sync lock that the bubble cannot
+// wait out (a mutex-blocked goroutine is not durably blocked): whoever the lock holder
+// waits for must then run without the scheduler's help.
+func (s *Sched) Unpark(a *Actor) {
+	s.mu.Lock()
+	if !a.parked || a.done {
+		s.mu.Unlock()
+		return
+	}
+	a.parked = false
+	s.mu.Unlock()
+	a.gate <- struct{}{}
+}
+
 // Settle waits for quiescence (after spawning actors).
 func (s *Sched) Settle() { synctest.Wait() }
 
